@@ -13,7 +13,7 @@ RULE = (
     "seeded random lazy/eager pairs: (A) diff/interp/min/max/cumsum over 1-2 axes on simple grids (random position sets, "
     "2-7 cells, any rule), (B) derivative/integrate/average/cumint/metric_weighted with metrics at every position, (C) "
     "apply_as_grid_ufunc with dask='parallelized' (core dim unchunked), dask='allowed', and dask='allowed'+map_overlap "
-    "on chunked or unchunked core dims, (D) diff/interp/min/max of scalars and diff/interp of vector components on "
+    "on chunked or unchunked core dims (the user function converts its argument with np.asarray unless the mode is plain 'allowed', as a kernel written for in-memory blocks does), (D) diff/interp/min/max of scalars and diff/interp of vector components on "
     "face-connected grids (geometric D4 topologies) chunked over face and extra dims. Every dimension's chunking is a "
     "uniformly random composition of its length (size-1, uneven and single-chunk layouts included). Monitors: a dask "
     "callback counts graph executions while the result is being built (must be 0); the result must be a dask collection; "
@@ -177,6 +177,8 @@ def setup_simple(desc):
             core_dims = core_dims + [cm[b2][desc["pos"][b2]]]
 
             def user(x):
+                if mode != "allowed":
+                    x = np.asarray(x)  # parallelized / map_overlap hand the function in-memory blocks: it may rely on that
                 return x[..., 1:, :] * 2 - x[..., :-1, :]
 
             def fn(x, lazy=None):
@@ -190,6 +192,8 @@ def setup_simple(desc):
             return ds, g, da, fn, core_dims, involved
 
         def user(x):
+            if mode != "allowed":
+                x = np.asarray(x)  # parallelized / map_overlap hand the function in-memory blocks: it may rely on that
             return x[..., 1:] * 2 - x[..., :-1]
 
         def fn(x, lazy=None):
